@@ -1822,7 +1822,12 @@ func (t *tScreen) collectEventsFromInput(buf *bytes.Buffer, expire bool) []Event
 		if partials == 0 || expire {
 			if b[0] == '\x1b' {
 				if len(b) == 1 {
-					res = append(res, NewEventKey(KeyEsc, 0, ModNone))
+					// an ESC typed right after an ESC is Esc with Alt
+					mod := ModNone
+					if t.escaped {
+						mod = ModAlt
+					}
+					res = append(res, NewEventKey(KeyEsc, 0, mod))
 					t.escaped = false
 				} else {
 					t.escaped = true
